@@ -42,6 +42,37 @@ def estimate(xs):
     return mean, Fraction(math.sqrt(var)), False
 
 
+def rep(fr, bits):
+    """True iff the rational ``fr`` is exactly representable with a ``bits``-bit significand
+    (53: float64, 24: float32; exponent range is not an issue for the data used)."""
+    fr = Fraction(fr)
+    d = fr.denominator
+    if d & (d - 1):
+        return False
+    n = abs(fr.numerator)
+    if n == 0:
+        return True
+    n >>= (n & -n).bit_length() - 1  # strip trailing zero bits
+    return n.bit_length() <= bits
+
+
+def gt_floor(D, a, b, exact, floor):
+    """``a > b`` through the Decider ``D``.
+
+    ``floor`` (>= 0, 0 = not used) is the *absolute* rounding noise a correct
+    float implementation carries on ``a - b`` for the family of data at hand
+    (large level, tiny scale, float32-typed input ...).  A comparison that is
+    not carried out in exact arithmetic and whose two sides are closer than
+    that is numerically undecidable whatever its relative margin - both sides
+    may be ~0 (threshold 0, a running mean that cancels) - and is registered
+    with the Decider as an undecidable comparison (it may be flipped to follow
+    the implementation, and is counted).
+    """
+    if floor and not exact and abs(a - b) <= floor:
+        return D.gt(b, b, exact=False)
+    return D.gt(a, b, exact=exact)
+
+
 class _Flat:
     """All fields are immutable values: deepcopy == field copy."""
 
@@ -80,8 +111,44 @@ class CusumModel(_Flat):
         self.state = None
         self.alarms = 0
         self.dead = False
+        # absolute rounding noise of the data family in the units of x (0 = legacy families:
+        # relative margins only); in z units it is floor_x / sd
+        self.floor_x = 0
+        # Exactness of the float arithmetic.  ``bits`` = None (legacy families: small integers and dyadic
+        # parameters) uses ``_exact``: every operand a dyadic rational.  That is not enough for arbitrary
+        # floats (every float is a dyadic rational): the round-3 families set ``bits`` to the significand
+        # width of the arithmetic the detector runs in (53, or 24 for float32-typed streams) and a step is in
+        # exact arithmetic only if every operand and every intermediate result of the implementation's
+        # expression is representable with that many bits - sticky within an epoch, because the sums carry
+        # earlier rounding along.
+        self.bits = None
+        self.ex_epoch = True
+        self.est_ok = True
         # bookkeeping about the last step (read by the check for its counters)
         self.last = {}
+
+    def _window_ok(self, window):
+        """Estimated statistics are computed exactly by numpy's float64 mean / std (given that the results are
+        dyadic, which ``_exact`` checks) when the window lies on a small dyadic grid: multiples of 1/16 up to
+        1024 in magnitude, at most 32 of them - sums, deviations and their squares then need < 53 bits."""
+        return (
+            self.bits == 53
+            and len(window) <= 32
+            and all(v.denominator <= 16 and v.denominator & (v.denominator - 1) == 0 and abs(v) <= 1024 for v in window)
+        )
+
+    def _exact_strict(self, x, hi0, lo0):
+        if not (self.sd_exact and self.est_ok):
+            return False
+        b = self.bits
+        r1 = x - self.target
+        z = r1 / self.sd
+        a1 = hi0 + z
+        b1 = lo0 - self.delta
+        return all(
+            rep(q, b)
+            for q in (x, self.target, self.sd, self.delta, self.h, r1, z, a1, a1 - self.delta, b1, b1 - z)
+        )
 
     def _exact(self):
         return (
@@ -99,6 +166,8 @@ class CusumModel(_Flat):
             # new epoch: standardisation constants from the last burn_in observations
             tail = self.fed[-self.burn_in:]
             self.target, self.sd, self.sd_exact = estimate(tail)
+            self.est_ok = self._window_ok(tail)
+            self.ex_epoch = True
             self.hi = self.lo = ZERO
             self.n = 0
             self.state = None
@@ -111,6 +180,7 @@ class CusumModel(_Flat):
                 return {"state": None, "error": None}
             # n == burn_in: the first burn_in observations fix target and sd
             self.target, self.sd, self.sd_exact = estimate(self.fed[-self.burn_in:])
+            self.est_ok = self._window_ok(self.fed[-self.burn_in:])
         if self.sd == 0:
             if n > self.burn_in:
                 self.dead = True
@@ -118,15 +188,18 @@ class CusumModel(_Flat):
                 return {"state": None, "error": "ValueError"}
             return {"state": None, "error": None}
         z = (x - self.target) / self.sd
+        if self.bits:
+            self.ex_epoch = self.ex_epoch and self._exact_strict(x, self.hi, self.lo)
         self.hi = max(ZERO, self.hi + z - self.delta)
         self.lo = max(ZERO, self.lo - z - self.delta)
-        ex = self._exact()
+        ex = self.ex_epoch if self.bits else self._exact()
         d = self.direction
         up = dn = False
+        fl = (self.floor_x / self.sd) if self.floor_x else 0
         if d in (None, "positive"):
-            up = D.gt(self.hi, self.h, exact=ex)
+            up = gt_floor(D, self.hi, self.h, ex, fl)
         if d in (None, "negative"):
-            dn = D.gt(self.lo, self.h, exact=ex)
+            dn = gt_floor(D, self.lo, self.h, ex, fl)
         over = up or dn
         tie = ex and (
             (d in (None, "positive") and self.hi == self.h) or (d in (None, "negative") and self.lo == self.h)
@@ -177,6 +250,8 @@ class PageHinkleyModel(_Flat):
         self.epoch = 0
         self.alarms = 0
         self.state = None
+        self.floor_x = 0  # absolute rounding noise of the data family (0 = legacy: relative margins only)
+        self.bits = None  # round-3 families: significand width of the detector's arithmetic (see CusumModel)
         self._new_epoch()
         self.last = {}
 
@@ -198,17 +273,28 @@ class PageHinkleyModel(_Flat):
             self._new_epoch()
         self.t += 1
         t = self.t
+        m0, u0 = self.mean, self.U
         self.mean = self.mean + (x - self.mean) / t
         self.dy = self.dy and is_dyadic(self.mean)
         self.U = self.U + x - self.mean - self.delta
         theta = self.lam * self.mean
+        if self.bits and self.dy:
+            # every operand / intermediate of the implementation's expressions representable: exact arithmetic
+            b = self.bits
+            self.dy = all(
+                rep(q, b)
+                for q in (x, m0, x - m0, (x - m0) / t, self.mean, u0 + x, u0 + x - self.mean, self.U, theta,
+                          self.lam, self.delta)
+            )
         self.mn = min(self.mn, self.U)
         self.mx = max(self.mx, self.U)
         if self.direction == "positive":
             diff = self.U - self.mn
         else:
             diff = self.mx - self.U
-        fired = D.gt(diff, theta, exact=self.dy)
+        if self.bits and self.dy and not rep(diff, self.bits):
+            self.dy = False
+        fired = gt_floor(D, diff, theta, self.dy, self.floor_x * max(1, abs(self.lam)) if self.floor_x else 0)
         self.last.update(fired=fired, tie=self.dy and diff == theta, exact=self.dy)
         if fired and t > self.burn_in:
             self.state = "drift"
